@@ -171,9 +171,25 @@ func (r *c04Runner) apply(op drv.Op) (crashed bool, err error) {
 		}
 		_, _, err = w.HTTP("POST", "/api/node/"+x.uuid(op.V)+"/"+op.Op, body)
 	case "instren":
-		_, _, err = w.RPC(nil, "repo", x.uuid(op.V), "rename", op.I, op.K2)
+		var st int
+		st, _, err = w.RPC(nil, "repo", x.uuid(op.V), "rename", op.I, op.K2)
+		if err == nil && st >= 200 && st < 300 {
+			// the model follows the rename (the point-read oracle addresses instances by name)
+			if m, ok := x.Insts[op.I]; ok {
+				x.Insts[op.K2], x.InstType[op.K2], x.InstRepo[op.K2] = m, x.InstType[op.I], x.InstRepo[op.I]
+				delete(x.Insts, op.I)
+				delete(x.InstType, op.I)
+				delete(x.InstRepo, op.I)
+			}
+		}
 	case "instdel":
-		_, _, err = w.RPC(nil, "repo", x.uuid(op.V), "delete", op.I)
+		var st int
+		st, _, err = w.RPC(nil, "repo", x.uuid(op.V), "delete", op.I)
+		if err == nil && st >= 200 && st < 300 {
+			delete(x.Insts, op.I)
+			delete(x.InstType, op.I)
+			delete(x.InstRepo, op.I)
+		}
 	default:
 		_, _, err = x.ApplyDAGOp(op)
 	}
@@ -471,6 +487,17 @@ func (x *KVExec) noteApplied(op drv.Op) {
 	case "repo":
 		x.D.Add(int(op.N), VUUID(int(op.N)), nil, "", op.R)
 		x.RepoRoot[op.R] = int(op.N)
+	case "instren":
+		if m, ok := x.Insts[op.I]; ok {
+			x.Insts[op.K2], x.InstType[op.K2], x.InstRepo[op.K2] = m, x.InstType[op.I], x.InstRepo[op.I]
+			delete(x.Insts, op.I)
+			delete(x.InstType, op.I)
+			delete(x.InstRepo, op.I)
+		}
+	case "instdel":
+		delete(x.Insts, op.I)
+		delete(x.InstType, op.I)
+		delete(x.InstRepo, op.I)
 	}
 }
 
